@@ -1056,7 +1056,7 @@ func runCompose(c *core.Ctx) {
 
 func init() {
 	log.SetLevel(log.ErrorLevel)
-	n := func(q, t int) func(string) int { return core.Const(q, t) }
+	n := func(q, t int) func(string) int { return core.Const(q, t*4) }
 	core.Register(&core.Property{
 		ID:    "C03",
 		Level: "exploration",
